@@ -1132,6 +1132,12 @@ func main() {
 		facts["hookFullScans"] = l
 		return "def hookFullScans : List Bytes := " + bytesList(l)
 	})
+	// ---- tq/transfer.go (C15): an action's expiry is judged from both of its fields, as they are
+	emit("actionExpiryArgs", func() string {
+		l := tq.callsWithConds("IsExpiredWithin", "Action", "IsExpiredAtOrIn")
+		facts["actionExpiryArgs"] = l
+		return "def actionExpiryArgs : List Bytes := " + bytesList(l)
+	})
 	// ---- commands/command_unlock.go (C16): the guard of `unlock --id` finds the lock's path in the local cache
 	// and, failing that, asks the server
 	emit("unlockByIdLookups", func() string {
